@@ -136,7 +136,7 @@ PLAN = {
         "level": "exploration",
         "engines": lambda tier: [_e("release", "schemamc", "c03")] + [
             _e("release", "schemamc", "c03", "--large", str(n), env=_rayon(t))
-            for (n, t) in ([(1000, 1), (1000, 16)] if tier == "quick" else [(1000, 1), (1000, 2), (1000, 16), (5000, 1), (5000, 2), (5000, 16)])
+            for (n, t) in ([(1000, 1), (3000, 16)] if tier == "quick" else [(1000, 1), (1000, 2), (3000, 16), (5000, 1), (5000, 2), (5000, 16)])
         ],
         "assumptions": [
             "keys come from a 40-string universe over {00,61,ff} (length<=3) and from the integer boundary alphabets; subsets up to the stated size are enumerated completely",
